@@ -619,3 +619,150 @@ _units_top = units
 
 def units(tier):   # noqa: F811
     return _units_top(tier) + small_units()
+
+
+_built = set()
+
+
+def _rbin(name):
+    src = os.path.join(VERIF, "replay", name + ".cpp")
+    out = os.path.join(VERIF, "build", "replay_" + name)
+    if out not in _built:      # rebuilt from /repo's current tree once per run
+        os.makedirs(os.path.dirname(out), exist_ok=True)
+        rc, o, e, s = sh(["g++", "-std=c++17", "-O1", "-w"] + INC + [src, "-o", out], 600)
+        if rc != 0:
+            raise RuntimeError("replay build failed: " + (o + e)[-1500:])
+        _built.add(out)
+    return out
+
+
+def mk_replay_line(ty, greater, nmax):
+    def rp(unit, failure):
+        i = failure["inputs"]
+
+        def val(x):
+            if x is None:
+                return None
+            x = str(x)
+            return x[5:] if x.startswith("bits:") else x.rstrip("ulUL")
+        n = i.get("g_n")
+        whole = i.get("g_in") if isinstance(i.get("g_in"), list) else [None] * nmax
+        arr = [i.get(f"g_in[{k}l]", i.get(f"g_in[{k}]", whole[k] if k < len(whole) else None)) for k in range(nmax)]   # element assignments of the harness loop win
+        s_, t_ = val(i.get("g_s")), val(i.get("g_t"))
+        if n is None or s_ is None or t_ is None or any(a is None for a in arr[:int(str(n).rstrip("ulUL"))]):
+            return {"reproduced": None, "detail": f"inputs not in the trace: {i}"}
+        n = int(str(n).rstrip("ulUL"))
+        cmd = [_rbin("line"), ty, "greater" if greater else "less", s_, t_] + [val(a) for a in arr[:n]]
+        rc, o, e, s = sh(cmd, 60)
+        return {"reproduced": True if rc == 1 else (False if rc == 0 else None), "cmd": " ".join(cmd), "detail": (o + e).strip()[-600:], "rc": rc}
+    return rp
+
+
+LINE_SUBS = [(r"using std::begin;", ""), (r"using std::end;", ""),
+             (r"auto (\w+) = begin\(input\);", r"Index \1 = 0;"), (r"auto (\w+) = end\(input\);", r"Index \1 = g_n;"),
+             (r"typedef std::decay_t<decltype\(\*\w+\)> Filtration;", ""),
+             (r"std::vector<Filtration> data;", "data_n = 0;"),
+             (r"data\.push_back\(([^;]*)\);", r"vec_push(\1);"), (r"data\.pop_back\(\)", "vec_drop(1)"),
+             (r"data\.back\(\)", "DATA(data_n - 1)"), (r"data\.end\(\)\[-(\d+)\]", r"DATA(data_n - \1)"),
+             (r"data\.erase\(data\.end\(\)\s*-\s*(\d+), data\.end\(\)\)", r"vec_drop(\1)"),
+             (r"data\.empty\(\)", "(data_n == 0)"), (r"data\.size\(\)", "data_n"), (r"\bdata\[(\d+)\]", r"DATA(\1)"),
+             (r"\*(\w+)\+\+", r"acc_in(\1++)"), (r"std::numeric_limits<Filtration>::infinity\(\)", "FV_INF")]
+
+
+def line_units(tier):
+    """compute_persistence_of_function_on_line as a whole, bounded by the number of samples: the goto state machine
+    is kept as it is (labels and gotos are C), std::vector becomes (array, length) with a range assertion on every
+    element access, and the result is compared with the rank invariant of sublevel-set persistence on a line."""
+    U = []
+    con = """
+__CPROVER_requires(in_ok() && g_nout == 0)
+__CPROVER_ensures(P_empty())
+__CPROVER_ensures(P_infinite_bar())
+__CPROVER_ensures(P_finite_bars())
+__CPROVER_ensures(P_rank())
+__CPROVER_assigns(data, data_n, g_ob, g_od, g_nout)
+"""
+    subs = LINE_SUBS
+    nq = [(5, "int", False), (5, "int", True)]
+    nt = [(6, "int", False), (6, "int", True), (7, "int", True), (5, "double", False), (5, "double", True)]
+    for n, ty, gr in nq + (nt if tier == "thorough" else []):
+        fn = Fn(L, r"void compute_persistence_of_function_on_line\(FiltrationRange const& input, OutputFunctor&& out, Compare&& lt = \{\}\)",
+                "line_persistence", con, sig_subs=[(r"\(FiltrationRange const& input, OutputFunctor&& out, Compare&& lt = \{\}\)", "(void)")],
+                calls={"out": "out_rec", "lt": "LT"}, subs=subs, dispatch=True,
+                canary=(r"if \(le\(v, DATA\(data_n - 2\)\)\)", "if (LT(v, DATA(data_n - 2)))"))
+        nm = f"line.whole.n{n}.{ty}.{'greater' if gr else 'less'}"
+        U.append(Unit(nm, "C14", [fn], enforce="line_persistence", includes=["c14d_glue.h"],
+                      defines=[f"NMAX={n}"] + (["FV_DOUBLE"] if ty == "double" else []) + (["CMP_GREATER"] if gr else []),
+                      globals_=f"size_t nondet_size(void); {ty} nondet_fv(void);\n", unwind=3 * n + 4, route="B", object_bits=10,
+                      bound=f"at most {n} samples; every value of the type ({ty}, NaN excluded), every pair of levels (s, t)",
+                      inputs=["g_n", "g_in", "g_s", "g_t"], replay=mk_replay_line(ty, gr, n),
+                      harness=H(f"  g_n = nondet_size(); __CPROVER_assume(g_n <= NMAX);\n  for (int k = 0; k < NMAX; k++) g_in[k] = nondet_fv();\n"
+                                "  g_s = nondet_fv(); g_t = nondet_fv(); g_nout = 0;", "line_persistence();"),
+                      runs=[Run(backend="kissat", timeout=900 if n <= 5 else 3000)],
+                      desc=f"compute_persistence_of_function_on_line ({ty}, std::{'greater' if gr else 'less'}) on at most {n} samples, all gotos unwound: every data[...] / data.end()[-k] / erase / pop_back stays inside the vector, the last bar is (minimum, infinity), every other bar has birth < death taken from the input, and for every pair of levels s <= t the number of bars alive over [s, t] equals the number of components of {{f <= t}} meeting {{f <= s}} (rank invariant: determines the barcode)"))
+    return U
+
+
+_units_small = units
+
+
+def units(tier):   # noqa: F811
+    return _units_small(tier) + line_units(tier)
+
+
+LINE_INV = """
+__CPROVER_assigns(vp_st, @it@, @v@, data_n, __CPROVER_object_whole(data), g_has_prev, g_pb, g_pd)
+__CPROVER_loop_invariant(@it@ <= @stop@ && @stop@ == g_n && g_n <= NMAX && 1 <= data_n && data_n <= @it@)
+__CPROVER_loop_invariant(!g_has_prev || LT(g_pb, g_pd))
+__CPROVER_loop_invariant(vp_st <= @st_infinite@ && vp_st != @st_state1down@ && (vp_st != 0 || data_n == 1))
+__CPROVER_loop_invariant(__CPROVER_forall { size_t k; (0 <= k && k < NMAX - 1) ==> ((k + 1 < data_n) ==> ((k % 2 == 0) ? LT(data[k], data[k + 1]) : LT(data[k + 1], data[k]))) })
+__CPROVER_loop_invariant(__CPROVER_forall { size_t k; (0 <= k && k < NMAX - 2) ==> ((k + 2 < data_n) ==> ((k % 2 == 0) ? LT(data[k], data[k + 2]) : LT(data[k + 2], data[k]))) })
+__CPROVER_loop_invariant(vp_st != @st_state1@ || data_n == 1)
+__CPROVER_loop_invariant(vp_st != @st_state12@ || data_n == 2)
+__CPROVER_loop_invariant(vp_st != @st_state12down@ || (data_n < @it@ && data_n == 2 && LT(@v@, data[1])))
+__CPROVER_loop_invariant(vp_st != @st_state132@ || (data_n >= 3 && data_n % 2 == 1))
+__CPROVER_loop_invariant(vp_st != @st_state132up@ || (data_n < @it@ && data_n >= 3 && data_n % 2 == 1 && LT(data[data_n - 1], @v@)))
+__CPROVER_loop_invariant(vp_st != @st_state312@ || (data_n >= 4 && data_n % 2 == 0))
+__CPROVER_loop_invariant(vp_st != @st_state312down@ || (data_n < @it@ && data_n >= 4 && data_n % 2 == 0 && LT(@v@, data[data_n - 1])))
+__CPROVER_loop_invariant(vp_st != @st_up@ || (data_n < @it@ && data_n % 2 == 1 && LT(data[data_n - 1], @v@)))
+__CPROVER_loop_invariant(vp_st != @st_down@ || (data_n < @it@ && data_n >= 2 && data_n % 2 == 0 && LT(@v@, data[data_n - 1])))
+__CPROVER_loop_invariant(vp_st != @st_endup@ || (@it@ == @stop@ && data_n >= 2 && data_n % 2 == 0))
+__CPROVER_loop_invariant(vp_st != @st_enddown@ || (@it@ == @stop@ && data_n % 2 == 1))
+__CPROVER_loop_invariant(vp_st != @st_infinite@ || (@it@ == @stop@ && data_n == 1))
+__CPROVER_decreases(4 * (@stop@ - @it@) + 2 * data_n + (vp_st == @st_infinite@ ? 0 : vp_st == @st_enddown@ ? 1 : vp_st == @st_endup@ ? 2 : (vp_st == @st_up@ || vp_st == @st_down@) ? 7 : (vp_st == 0 || vp_st == @st_state1@ || vp_st == @st_state12@ || vp_st == @st_state132@ || vp_st == @st_state312@) ? 3 : 6))
+"""
+
+
+def line_invariant_units(tier):
+    """compute_persistence_of_function_on_line with a loop contract on the dispatch loop (rule R14): the documented
+    invariant 'data contains a sequence of type 1 9 2 8 3 7 ...' made precise per state, plus a variant."""
+    U = []
+    con = """
+__CPROVER_requires(in_ok() && !g_has_prev)
+__CPROVER_ensures(g_n == 0 ? !g_has_prev : (g_has_prev && g_pd == FV_INF && data_n == 1 && g_pb == data[0]))
+__CPROVER_assigns(data, data_n, g_has_prev, g_pb, g_pd)
+"""
+    cases = [(64, "int", False), (64, "int", True)] + ([(128, "int", False), (64, "double", False), (64, "double", True)] if tier == "thorough" else [])
+    for n, ty, gr in cases:
+        fn = Fn(L, r"void compute_persistence_of_function_on_line\(FiltrationRange const& input, OutputFunctor&& out, Compare&& lt = \{\}\)",
+                "line_persistence", con, sig_subs=[(r"\(FiltrationRange const& input, OutputFunctor&& out, Compare&& lt = \{\}\)", "(void)")],
+                calls={"out": "out_rec", "lt": "LT"}, subs=LINE_SUBS, dispatch=True, loops={0: LINE_INV},
+                derive={"it": r"auto (\w+) = begin\(input\)", "stop": r"auto (\w+) = end\(input\)", "v": r"\bFiltration (\w+);"},
+                canary=(r"if \(le\(v, DATA\(data_n - 2\)\)\)", "if (LT(v, DATA(data_n - 2)))"))
+        nm = f"line.invariant.cap{n}.{ty}.{'greater' if gr else 'less'}"
+        U.append(Unit(nm, "C14", [fn], enforce="line_persistence", includes=["c14e_glue.h"], loop_contracts=True,
+                      defines=[f"NMAX={n}"] + (["FV_DOUBLE"] if ty == "double" else []) + (["CMP_GREATER"] if gr else []),
+                      globals_="", route="B", unwind=(n + 2 if ty == "double" else 12),
+                      bound=f"at most {n} samples (capacity of the arrays); the loop is closed by its invariant, not unwound",
+                      inputs=["g_n"],
+                      harness=H("  g_has_prev = 0;", "line_persistence();"),
+                      runs=[Run(backend="sat", timeout=1800)],
+                      desc=f"compute_persistence_of_function_on_line ({ty}, std::{'greater' if gr else 'less'}), loop contract on the state machine: per state, the size/parity of data and its alternating shape (lows increasing, highs decreasing, every low below every high) are inductive; hence every data[...] / end()[-k] / erase / pop_back stays inside the vector, GUDHI_CHECK never fires, every bar but the last has birth < death, exactly the last call is (data[0], infinity), and the routine terminates (variant 4*(remaining input) + 2*size + state rank)"))
+    return U
+
+
+_units_line = units
+
+
+def units(tier):   # noqa: F811
+    return _units_line(tier) + line_invariant_units(tier)
